@@ -4,9 +4,9 @@
 selftest/harmless/<PROP>.<name>.diff are behaviour-preserving refactors of /repo (renamed locals, reordered independent
 statements, extracted helpers, cached values, dispatch tables, a set comprehension instead of a loop, an extra private
 attribute).  Each is applied to a scratch copy outside /repo and /verif; the property's check (and the checks listed in
-ALSO) must exit 0 - no VIOLATION, no 'undecided' from the obligation lock.  The <PROP>.agent-refactor.diff patches were
-written by sub-agents that saw only the property text (larger restructurings, 80-200 changed lines each, each shown
-equivalent by the agent's own differential test).  One of them is expected to leave the deductive units UNDECIDED
+ALSO) must exit 0 - no VIOLATION, no 'undecided' from the obligation lock.  The <PROP>.agent-refactor.diff and <PROP>.agent-modernise.diff
+patches were written by sub-agents that saw only the property text (larger restructurings, 80-200 changed lines each, each shown
+equivalent by the agent's own differential test).  Two restructurings of Commissioning are expected to leave the deductive units UNDECIDED
 (exit 2, never a VIOLATION line): see EXPECT_UNDECIDED.  /repo is never touched."""
 import os
 import shutil
@@ -25,6 +25,10 @@ EXPECT_UNDECIDED = {
     "C07.agent-refactor": "Commissioning split into four generators: the three loop invariants are written over one "
                           "function's locals (the 'finished' flag became a return value, the address list is handed "
                           "over by reference)",
+    "C07.agent-modernise": "Commissioning rewritten with nested generator closures (`sweep()`, `program()`), a generator "
+                           "expression as the scan domain and `while True` instead of the `finished` flag: the loop headers "
+                           "differ from the pinned ones and the invariants are not re-established, so the failures are "
+                           "undecided; the bounded commissioning runs pass",
 }
 
 
@@ -48,6 +52,8 @@ def main():
             for p in [prop] + ALSO.get(stem, []):
                 env = dict(os.environ, PYVC_ROOT=tmp, PYTHONPATH=tmp, PYTHONDONTWRITEBYTECODE="1",
                            PYVC_REPLAY_DIR=os.path.join(tmp, "replays"))
+                if stem in EXPECT_UNDECIDED:
+                    env["PYVC_UNIT_BUDGET_S"] = os.environ.get("PYVC_UNIT_BUDGET_S", "300")
                 r = subprocess.run([os.path.join(HERE, ".venv/bin/python"), "-m", "pyvc.main", p, "--no-evidence"],
                                    cwd=HERE, env=env, capture_output=True, text=True)
                 ok = r.returncode == 0
